@@ -50,6 +50,11 @@ def answers(m, kind, probe, probe2=None):
             res[name] = "NotImplemented"
         except Exception as e:
             res[name] = "error:" + C.errkind(e)
+    # every accessor without arguments first, in the state the history left (transform of the probe comes after them)
+    for acc in C.ACCESSORS:
+        if acc in ("components", "scores", "get_params") or not hasattr(m, acc):
+            continue
+        put(acc + "()", getattr(m, acc))
     if kind == "cross":
         put("components", lambda: m.components())
         put("scores", lambda: m.scores())
